@@ -278,6 +278,28 @@ func propC08(c *ctx) error {
 			})
 		}
 	}
+	// inside a raw-text element: every proper prefix of its own end tag (in either letter case) followed by characters of
+	// one to four bytes, by the end of input, by another prefix
+	for _, el := range []string{"script", "style", "textarea", "title", "SCRIPT", "Title"} {
+		end := "</" + el
+		for k := 1; k <= len(end); k++ {
+			for _, ch := range []string{"»", "—", "€", "😀", "é", "a", " ", ">", "\n", "", "<", "</", "\xff", "\x80\x80"} {
+				for _, tail := range []string{" y</" + el + ">", "", "</" + strings.ToUpper(el) + " >"} {
+					src := "<" + el + ">x " + end[:k] + ch + tail
+					res.eval("rawprefix|"+src, true, J{"src": src})
+					res.count("raw_text_end_tag_prefixes")
+					guard("Add+Execute (raw-text content with a prefix of its end tag)", src, func() {
+						m, err, _ := implLoadNoRecover([][2]string{{"t", src}})
+						if err == nil {
+							t, _ := m.tm.GetTemplate("t")
+							var sb strings.Builder
+							t.Execute(&sb, nil)
+						}
+					})
+				}
+			}
+		}
+	}
 	// loading a template SET from a file system that misbehaves: a matching file that cannot be opened, cannot be read, a
 	// directory that cannot be listed — Parse / ParseWithSuffix / ParseWithRegexp return an error value
 	for _, fault := range []string{"open", "read", "readdir", "none"} {
